@@ -91,8 +91,29 @@ class LeakDom(r3free.FreeDom):
     def on_assign(self, key, lhs, rhs, val, st, elem):
         st = r3free.FreeDom.on_assign(self, key, lhs, rhs, val, st, elem)
         is_local_scalar = key is not None and key[0] == "v" and key[1] not in self.pids and self.fn.vars.get(key[1], {}).get("dk", "local") != "global"
+        if not is_local_scalar and key is not None and key[0] == "m" and key[1][0] == "v" and key[1][1] not in self.pids:
+            # a member of a structure that is itself a local variable (`getbuf.base = malloc()`): storage that dies with the call
+            v = self.fn.vars.get(key[1][1])
+            if v is not None and v.get("dk", "local") != "global" and self.fn.type(v["t"]).get("k") == "rec":
+                is_local_scalar = True
         if not is_local_scalar:
             st = self.capture_val(st, val)
+        return st
+
+    def kill(self, st, key):
+        # `&localstruct` handed to a callee: the members may change, but an owned object held in one (`getbuf.base`) is still
+        # the function's to release - the callee's own releases / captures arrive through its summary
+        keep = []
+        if isinstance(key, tuple) and key[0] == "v" and key[1] not in self.pids:
+            v = self.fn.vars.get(key[1])
+            if v is not None and self.fn.type(v["t"]).get("k") == "rec":
+                live = self.sset(st, "$A") - self.sset(st, "$F")
+                for k2, v2 in st.items():
+                    if isinstance(k2, tuple) and k2[0] == "m" and k2[1] == key and isinstance(v2, AVal) and self.the_sym(v2) in live:
+                        keep.append((k2, v2))
+        st = r3free.FreeDom.kill(self, st, key)
+        for k2, v2 in keep:
+            st = st.set(k2, v2)
         return st
 
     mpi_objects = False
